@@ -293,6 +293,13 @@ fn clause_for(spec: &ClauseSpec, uids: &[u16]) -> DynClause {
         M::PinReq => mut1::clause(ByPinMock::pin_req, spec, uids),
         M::PinProv => mut1::clause(ByPinMock::pin_prov, spec, uids),
         M::E0 => ref2::clause(ExplMock::e0, spec, uids),
+        M::S0 => ref1::clause(SkipMock::s0, spec, uids),
+        M::S1 => ref1::clause(SkipMock::s1, spec, uids),
+        M::S2 => ref1::clause(SkipMock::s2, spec, uids),
+        other @ (M::LendA | M::LendB | M::LendMut | M::Lent | M::LendClone | M::LendVia | M::OwnSingle | M::OwnMulti
+        | M::OwnOpt | M::OwnRes | M::OwnTup | M::OwnTup1 | M::OwnVec) => {
+            panic!("{other:?} is configured through Config::specials")
+        }
         M::Af => ref1::clause(AsyncAMock::af, spec, uids),
         M::Ag => ref1::clause(AsyncAMock::ag, spec, uids),
         M::At => ref1::clause(AsyncTMock::at, spec, uids),
@@ -449,6 +456,104 @@ fn nest(mut list: Vec<DynClause>, rng: &mut Rng) -> DynClause {
     tuple_from(parts)
 }
 
+fn quantified<F: MockFn + 'static>(q: Quantify<'static, F, InAnyOrder>, quant: Quant) -> DynClause {
+    match quant {
+        Quant::Unq => DynClause::new(q),
+        Quant::Once => DynClause::new(q.once()),
+        Quant::N(n) => DynClause::new(q.n_times(n as usize)),
+        Quant::AtLeast(n) => DynClause::new(q.at_least_times(n as usize)),
+    }
+}
+
+fn special_clause(sp: &Special) -> DynClause {
+    use crate::values::*;
+    let tracker = tl_tracker();
+    match sp {
+        Special::LendA => DynClause::new(
+            LendMock::lend_a
+                .each_call(matching!(_))
+                .answers(&|u, _| u.make_ref(ValA::new(&tl_tracker(), tl_val_id()))),
+        ),
+        Special::LendB => DynClause::new(
+            LendMock::lend_b
+                .each_call(matching!(_))
+                .answers(&|u, _| u.make_ref(ValB::new(&tl_tracker(), tl_val_id()))),
+        ),
+        Special::LendMut => DynClause::new(
+            LendMock::lend_mut
+                .each_call(matching!(_))
+                .answers(&|u, _| u.make_mut(ValA::new(&tl_tracker(), tl_val_id()))),
+        ),
+        Special::Lent { id } => DynClause::new(LendMock::lent.each_call(matching!(_)).returns(Tracked::new(&tracker, *id))),
+        Special::LendClone => DynClause::new(
+            LendMock::lend_clone
+                .each_call(matching!(_))
+                .answers(&|u, _| u.make_ref(u.clone())),
+        ),
+        Special::OwnSingle { ordered, once, then_answers, id } => {
+            let value = Tracked::new(&tracker, *id);
+            macro_rules! chain {
+                ($start:expr) => {{
+                    let qrv = $start.returns(value);
+                    if *then_answers {
+                        DynClause::new(
+                            qrv.once()
+                                .then()
+                                .answers(&|_, _| Tracked::new(&tl_tracker(), tl_val_id())),
+                        )
+                    } else if *once {
+                        DynClause::new(qrv.once())
+                    } else {
+                        DynClause::new(qrv)
+                    }
+                }};
+            }
+            if *ordered {
+                chain!(OwnMock::own_single.next_call(matching!(_)))
+            } else {
+                chain!(OwnMock::own_single.some_call(matching!(_)))
+            }
+        }
+        Special::OwnMulti { quant, each_call, id } => {
+            let value = TrackedC::new(&tracker, *id);
+            if *each_call {
+                quantified(OwnMock::own_multi.each_call(matching!(_)).returns(value), *quant)
+            } else {
+                let qrv = OwnMock::own_multi.some_call(matching!(_)).returns(value);
+                match quant {
+                    Quant::AtLeast(n) => DynClause::new(qrv.at_least_times(*n as usize)),
+                    Quant::N(n) => DynClause::new(qrv.n_times(*n as usize)),
+                    _ => DynClause::new(qrv.n_times(2)),
+                }
+            }
+        }
+        Special::OwnOpt { id } => {
+            DynClause::new(OwnMock::own_opt.some_call(matching!(_)).returns(Some(Tracked::new(&tracker, *id))))
+        }
+        Special::OwnRes { id } => DynClause::new(
+            OwnMock::own_res
+                .some_call(matching!(_))
+                .returns(Err::<u32, _>(Tracked::new(&tracker, *id))),
+        ),
+        Special::OwnTup { quant, id } => quantified(
+            OwnMock::own_tup
+                .each_call(matching!(_))
+                .returns((7u32, TrackedC::new(&tracker, *id))),
+            *quant,
+        ),
+        Special::OwnTup1 { id } => DynClause::new(
+            OwnMock::own_tup1
+                .some_call(matching!(_))
+                .returns((7u32, Tracked::new(&tracker, *id))),
+        ),
+        Special::OwnVec { id } => DynClause::new(
+            OwnMock::own_vec
+                .some_call(matching!(_))
+                .returns(vec![Ok(1u32), Err(Tracked::new(&tracker, *id)), Ok(3u32)]),
+        ),
+    }
+}
+
 /// Build the real mock. Must be called on the simulated thread that is to be its creator.
 pub fn build_mock(cfg: &Config) -> Unimock {
     let mut uid = 0u16;
@@ -457,6 +562,9 @@ pub fn build_mock(cfg: &Config) -> Unimock {
         let uids: Vec<u16> = (0..c.patterns.len() as u16).map(|i| uid + i).collect();
         uid += c.patterns.len() as u16;
         clauses.push(clause_for(c, &uids));
+    }
+    for sp in &cfg.specials {
+        clauses.push(special_clause(sp));
     }
     let mut rng = Rng::new(cfg.nest_seed);
     let clause = if cfg.nest_seed == 0 {
